@@ -385,3 +385,37 @@ def hostile_all(w):
                 probs.append("%s -> %s: %s" % (m, t, r["detail"]))
     return {"cases": cases, "reproduced": bool(probs), "detail": "; ".join(probs[:3]) or "nothing raised, nothing but validly named elements changed",
             "failures": [{"detail": p, "reproduced": True, "witness": {"replay_kind": "driver.hostile_all"}} for p in probs[:3]]}
+
+
+@kind("driver.two_instances")
+def two_instances(w):
+    """C14 natively: two devices built from one Driver class with @on handlers; a write to one runs only its own handlers"""
+    from indi.device import Driver, properties
+    from indi.device.events import on, Write, Change
+    from indi.routing import Router
+    from indi import message as M
+    from indi.message import one_parts as P
+
+    class Focuser(Driver):
+        main = properties.Group("MAIN", vectors=dict(pos=properties.NumberVector("POS", elements=dict(x=properties.Number("X", default=1.0)))))
+
+        def __init__(self, *a, **k):
+            super().__init__(*a, **k)
+            self.calls = []
+
+        @on(main.pos.x, Write)
+        def on_write_x(self, event):
+            self.calls.append("write")
+
+        @on(main.pos.x, Change)
+        def on_change_x(self, event):
+            self.calls.append("change")
+    r = Router()
+    a, b = Focuser(name="A", router=r), Focuser(name="B", router=r)
+    r.process_message(M.NewNumberVector(device="A", name="POS", children=(P.OneNumber(name="X", value="5"),)))
+    probs = []
+    if a.calls != ["write", "change"]:
+        probs.append("A's handlers saw %r, expected one Write then one Change" % (a.calls,))
+    if b.calls:
+        probs.append("B's handlers ran (%r) for a write addressed to device A" % (b.calls,))
+    return {"reproduced": bool(probs), "detail": "; ".join(probs) or "only the written device's handlers ran, once each"}
